@@ -455,4 +455,15 @@ void __asan_poison_memory_region(void const volatile *addr, size_t size);
 void __asan_unpoison_memory_region(void const volatile *addr, size_t size);
 #endif
 
+/* Verification hooks: loop contracts and ghost updates for the contract-based
+ * deductive verification kept outside this repository. They expand to nothing
+ * unless ZSTD_VERIF is defined (the verification build then supplies
+ * zstd_verif_hooks.h on its include path). */
+#ifdef ZSTD_VERIF
+#  include "zstd_verif_hooks.h"
+#else
+#  define ZSTD_VERIF_LOOP(...)
+#  define ZSTD_VERIF_GHOST(...)
+#endif
+
 #endif /* ZSTD_COMPILER_H */
